@@ -18,7 +18,7 @@
 From Coq Require Import List NArith ZArith Bool Arith.
 From Coq.Strings Require Import Byte.
 Import ListNotations.
-From BWMemo Require Import Memo MemoProofs MemoStepProofs KeyProofs Concrete.
+From BWMemo Require Import Memo MemoProofs MemoStepProofs KeyProofs Concrete AnchorProofs.
 
 (* which key function the current tree has (the correspondence run of checks/c19.py evaluates the model with key_cur) *)
 Theorem C19_model_follows_tree : forall arg : Type, @key_cur arg = @key_v1 arg.
@@ -67,6 +67,36 @@ Proof.
   exact (proj1 (seq_v1 istate gid wreq arg elem err arg_eqb HA inner_step Hp s g rs HD)).
 Qed.
 Print Assumptions C19_offset.
+
+(* The premise `lo_wf` of C19_offset is a theorem for options rendered as storage.LookupOptions.String() renders them:
+   anchors by Time.Format(time.RFC3339Nano) - the Values family's Go-faithful `fmt_rfc3339nano` (alphabet 0-9 T : . Z + -,
+   hence no comma and never the text "nil", for EVERY instant and zone) - and the filter by fmt %+v (opening brace first). *)
+Theorem C19_rendered_options_wf : forall o : topts, lo_wf (render o) = true.
+Proof. exact render_wf. Qed.
+Print Assumptions C19_rendered_options_wf.
+
+(* LookupOptions.String() is injective on such options, with no hypothesis on the renderings; the anchors come back as
+   values on the domain where Format itself is injective (C05_rfc3339nano_injective: years 0000-9999, whole-minute zone) *)
+Theorem C19_options_key_injective :
+  forall a b : topts,
+    options_key (render a) = options_key (render b) ->
+    to_max a = to_max b /\ to_latest a = to_latest b /\ to_filter a = to_filter b /\
+    option_map (fun t => BWValues.TimeCodec.fmt_rfc3339nano t) (to_lower a)
+      = option_map (fun t => BWValues.TimeCodec.fmt_rfc3339nano t) (to_lower b) /\
+    option_map (fun t => BWValues.TimeCodec.fmt_rfc3339nano t) (to_upper a)
+      = option_map (fun t => BWValues.TimeCodec.fmt_rfc3339nano t) (to_upper b) /\
+    (anchor_dom (to_lower a) -> anchor_dom (to_lower b) -> to_lower a = to_lower b) /\
+    (anchor_dom (to_upper a) -> anchor_dom (to_upper b) -> to_upper a = to_upper b).
+Proof. exact options_key_inj_rendered. Qed.
+Print Assumptions C19_options_key_injective.
+
+(* so, for requests over rendered options, equal cache keys (current tree) are equal requests - unconditionally *)
+Theorem C19_key_injective_rendered :
+  forall (arg : Type) (o1 o2 : topts) (a1 a2 : list arg) (op1 op2 : opkind),
+    key_v1 (mkQ op1 (render o1) a1) = key_v1 (mkQ op2 (render o2) a2) ->
+    mkQ op1 (render o1) a1 = mkQ op2 (render o2) a2.
+Proof. exact key_v1_inj_rendered. Qed.
+Print Assumptions C19_key_injective_rendered.
 
 (* the key of the tree before F16 (no offset): the property holds on the domain D0 = first pages or no paging *)
 Theorem C19_sequential_single_handle_partial :
